@@ -437,6 +437,14 @@ def channel_checks(R, prog, b, rule, src=None):
         for _, atom in c_.atoms():
             n_pa += sum(1 for s_ in subterms(atom[1]) if is_parse(s_))
         n_pa += sum(1 for s_ in subterms(c_.T.return_term()) if is_parse(s_)) if path_ else 0
+    if not n_pa:
+        # `s.strip_prefix("channel-").map(str::parse::<u64>)`: the parse as a function item mapped over the remainder
+        from engine.analysis import ok_payload as _okp14
+        for c_, path_ in inline_walk(prog, c, 3):
+            for _, atom in c_.atoms():
+                for s_ in subterms(atom[1]):
+                    if s_[0] == "call" and s_[1] in ("std::option::Option::map", "std::option::Option::and_then") and len(s_[2]) == 2 and s_[2][1][0] == "fn" and is_parse(_okp14(("call", "std::option::Option::map", s_[2]))):
+                        n_pa += 1
     # the prefix is there, the remainder is not a number: is_ok() false, a match on the parse result takes Err
     w = prefix_world(c, src, LIT, True).assume((pa, False), (is_parse, ("ok", False))).settle()
     ok_pa = not success_exits(w)
